@@ -1924,6 +1924,7 @@ structure DRel (d : DState) (m : DMon) : Prop where
   notify : ∀ g, (d.store.notify g).getD false = m.sig g
   out : d.outstanding = m.outstanding
   queue : d.queue = m.fifo
+  held : ∀ g, d.held g = m.held g
 
 theorem queuePop_eq (q : List Nat) : queuePop q = (q.head?, q.tail) := by
   cases q <;> rfl
@@ -1956,19 +1957,26 @@ theorem store_ensure_notify (st : Store) (g k : Nat) : ((st.ensure g).notify k).
     cases hd : st.notify k <;> simp [Store.ensure, hd]
   · cases hd : st.notify g <;> simp [Store.ensure, hd, setAt_other _ _ hk]
 
+theorem store_watch_notify (st : Store) (g k : Nat) : ((st.watch g).notify k).getD false = (st.notify k).getD false := by
+  by_cases hk : k = g
+  · subst hk
+    cases hd : st.notify k <;> simp [Store.watch, hd]
+  · cases hd : st.notify g <;> simp [Store.watch, hd, setAt_other _ _ hk]
+
 /-- one call: the model's outcome is accepted by the monitor and the relation is kept -/
 theorem drel_step (workers : Nat) {d : DState} {m : DMon} (h : DRel d m) (op : DOp) :
     ∃ m', dmonStep workers m op (dstep workers d op).1 = .ok m' ∧ DRel (dstep workers d op).2 m' := by
-  obtain ⟨hd, hn, ho, hq⟩ := h
+  obtain ⟨hd, hn, ho, hq, hh⟩ := h
   cases op with
   | submit g v =>
     refine ⟨_, by simp only [dstep, dmonStep, Nat.min_le_left, if_true]; rfl, ?_⟩
     exact ⟨fun k => by simpa [dstep, store_ensure_data] using hd k,
-           fun k => by simpa [dstep, store_ensure_notify] using hn k, by simp [dstep, ho], by simpa [dstep] using hq⟩
-  | submitCancelled g => exact ⟨m, rfl, ⟨hd, hn, ho, hq⟩⟩
+           fun k => by simpa [dstep, store_ensure_notify] using hn k, by simp [dstep, ho], by simpa [dstep] using hq,
+           by simpa [dstep] using hh⟩
+  | submitCancelled g => exact ⟨m, rfl, ⟨hd, hn, ho, hq, hh⟩⟩
   | finish g v =>
     refine ⟨_, by simp only [dstep, dmonStep, Nat.min_le_left, if_true]; rfl, ?_⟩
-    refine ⟨fun k => ?_, fun k => ?_, by simp [dstep, ho], by simpa [dstep] using hq⟩
+    refine ⟨fun k => ?_, fun k => ?_, by simp [dstep, ho], by simpa [dstep] using hq, by simpa [dstep] using hh⟩
     · simp only [dstep, store_store_data]
       by_cases hk : k = g
       · subst hk; simp [hd k]
@@ -1978,35 +1986,74 @@ theorem drel_step (workers : Nat) {d : DState} {m : DMon} (h : DRel d m) (op : D
       · subst hk; simp
       · simp [hk, setAt_other _ _ hk, hn k]
   | remove g =>
-    refine ⟨_, rfl, ⟨fun k => ?_, fun k => ?_, by simp [dstep, ho], by simpa [dstep] using hq⟩⟩
+    refine ⟨_, rfl, ⟨fun k => ?_, fun k => ?_, by simp [dstep, ho], by simpa [dstep] using hq, fun k => ?_⟩⟩
     · by_cases hk : k = g
       · subst hk; simp [dstep, Store.remove]
       · simp [dstep, Store.remove, setAt_other _ _ hk, hd k]
     · by_cases hk : k = g
       · subst hk; simp [dstep, Store.remove]
       · simp [dstep, Store.remove, setAt_other _ _ hk, hn k]
+    · simp only [dstep, hn g]
+      by_cases hk : k = g
+      · subst hk; simp [hh k]
+      · simp [setAt_other _ _ hk, hh k]
   | results g =>
     have hl : (d.store.results g).1 = m.owed g := by simp [Store.results, hd g]
-    refine ⟨_, by simp only [dstep, dmonStep, hl, if_true]; rfl, ⟨fun k => ?_, fun k => ?_, by simp [dstep, ho], by simpa [dstep] using hq⟩⟩
+    refine ⟨_, by simp only [dstep, dmonStep, hl, if_true]; rfl, ⟨fun k => ?_, fun k => ?_, by simp [dstep, ho], by simpa [dstep] using hq,
+      by simpa [dstep] using hh⟩⟩
     · by_cases hk : k = g
       · subst hk; simp [dstep, Store.results]
       · simp [dstep, Store.results, setAt_other _ _ hk, hd k]
     · simpa [dstep, Store.results] using hn k
   | poll g =>
     have hl : (d.store.poll g).1 = m.sig g := by simp [Store.poll, hn g]
-    refine ⟨_, by simp only [dstep, dmonStep, hl, if_true]; rfl, ⟨fun k => ?_, fun k => ?_, by simp [dstep, ho], by simpa [dstep] using hq⟩⟩
+    refine ⟨_, by simp only [dstep, dmonStep, hl, if_true]; rfl, ⟨fun k => ?_, fun k => ?_, by simp [dstep, ho], by simpa [dstep] using hq,
+      by simpa [dstep] using hh⟩⟩
     · simpa [dstep, Store.poll] using hd k
     · by_cases hk : k = g
       · subst hk; simp [dstep, Store.poll]
       · simp [dstep, Store.poll, setAt_other _ _ hk, hn k]
   | qAdd vs =>
-    exact ⟨_, rfl, ⟨by simpa [dstep] using hd, by simpa [dstep] using hn, by simp [dstep, ho], by simp [dstep, hq]⟩⟩
+    exact ⟨_, rfl, ⟨by simpa [dstep] using hd, by simpa [dstep] using hn, by simp [dstep, ho], by simp [dstep, hq],
+      by simpa [dstep] using hh⟩⟩
   | qPop =>
     refine ⟨_, by simp only [dstep, dmonStep, queuePop_eq, hq, if_true]; rfl, ?_⟩
-    exact ⟨by simpa [dstep] using hd, by simpa [dstep] using hn, by simp [dstep, ho], by simp [dstep, queuePop_eq, hq]⟩
+    exact ⟨by simpa [dstep] using hd, by simpa [dstep] using hn, by simp [dstep, ho], by simp [dstep, queuePop_eq, hq],
+      by simpa [dstep] using hh⟩
   | qLen =>
     refine ⟨_, by simp only [dstep, dmonStep, hq, if_true]; rfl, ?_⟩
-    exact ⟨by simpa [dstep] using hd, by simpa [dstep] using hn, by simp [dstep, ho], by simpa [dstep] using hq⟩
+    exact ⟨by simpa [dstep] using hd, by simpa [dstep] using hn, by simp [dstep, ho], by simpa [dstep] using hq,
+      by simpa [dstep] using hh⟩
+  | watch g =>
+    refine ⟨_, rfl, ⟨by simpa [dstep, Store.watch] using hd, fun k => by simpa [dstep, store_watch_notify] using hn k,
+      by simp [dstep, ho], by simpa [dstep] using hq, fun k => ?_⟩⟩
+    by_cases hk : k = g
+    · subst hk; simp [dstep]
+    · simp [dstep, setAt_other _ _ hk, hh k]
+  | pollHeld g =>
+    cases hg : d.held g with
+    | none =>
+      have hm : m.held g = .none := by rw [← hh g, hg]
+      refine ⟨m, by simp [dstep, dmonStep, pollHeldStep, hg, hm], ?_⟩
+      exact ⟨by simpa [dstep, pollHeldStep, hg] using hd, by simpa [dstep, pollHeldStep, hg] using hn, by simp [dstep, ho],
+        by simpa [dstep] using hq, by simpa [dstep, pollHeldStep, hg] using hh⟩
+    | attached =>
+      have hm : m.held g = .attached := by rw [← hh g, hg]
+      refine ⟨{ m with sig := setAt m.sig g false }, by simp [dstep, dmonStep, pollHeldStep, hg, hm, hn g], ?_⟩
+      refine ⟨by simpa [dstep, pollHeldStep, hg] using hd, fun k => ?_, by simp [dstep, ho], by simpa [dstep] using hq,
+        by simpa [dstep, pollHeldStep, hg] using hh⟩
+      by_cases hk : k = g
+      · subst hk
+        cases hx : d.store.notify k <;> simp [dstep, pollHeldStep, hg, hx]
+      · simp [dstep, pollHeldStep, hg, setAt_other _ _ hk, hn k]
+    | detached t =>
+      have hm : m.held g = .detached t := by rw [← hh g, hg]
+      refine ⟨{ m with held := setAt m.held g (.detached false) }, by simp [dstep, dmonStep, pollHeldStep, hg, hm], ?_⟩
+      refine ⟨by simpa [dstep, pollHeldStep, hg] using hd, by simpa [dstep, pollHeldStep, hg] using hn, by simp [dstep, ho],
+        by simpa [dstep] using hq, fun k => ?_⟩
+      by_cases hk : k = g
+      · subst hk; simp [dstep, pollHeldStep, hg]
+      · simp [dstep, pollHeldStep, hg, setAt_other _ _ hk, hh k]
 
 theorem drel_run (workers : Nat) (ops : List DOp) : ∀ {d : DState} {m : DMon}, DRel d m →
     ∃ m', dmonRun workers m ops (drun workers d ops) = .ok m' := by
@@ -2060,6 +2107,9 @@ theorem dcons_step {workers : Nat} {m m' : DMon} {op : DOp} {out : DOut} (h : DC
   case qLen.len n =>
     split at hs <;> cases hs
     exact h
+  case watch.unit g => cases hs; exact h
+  case pollHeld.token g b =>
+    split at hs <;> split at hs <;> cases hs <;> exact h
 
 theorem dcons_run {workers : Nat} (ops : List DOp) : ∀ {outs : List DOut} {m m' : DMon}, DCons m →
     dmonRun workers m ops outs = .ok m' → DCons m' := by
@@ -2081,5 +2131,83 @@ theorem dcons_run {workers : Nat} (ops : List DOp) : ∀ {outs : List DOut} {m m
         simp only [hs] at hr
         exact ih (dcons_step h hs) hr
 
+/-! ### VOLUME: a kept channel and a long result list, for any number of groups / results -/
+
+theorem drun_append (workers : Nat) (a b : List DOp) : ∀ d : DState,
+    drun workers d (a ++ b) = drun workers d a ++ drun workers (dend workers d a) b := by
+  induction a with
+  | nil => intro d; rfl
+  | cons op a ih => intro d; simp only [List.cons_append, drun, dend, ih]
+
+theorem dend_append (workers : Nat) (a b : List DOp) : ∀ d : DState,
+    dend workers d (a ++ b) = dend workers (dend workers d a) b := by
+  induction a with
+  | nil => intro d; rfl
+  | cons op a ih => intro d; simp only [List.cons_append, dend, ih]
+
+/-- every call except `RemoveGroup(g)` itself and a receive from `g`'s channel keeps "the reader of `g` has
+its group's live channel and a token is on it": in particular `RemoveGroup` of ANY OTHER group, and calls
+on any number of other groups in any state -/
+theorem woken_step (workers : Nat) {d : DState} {g : Nat} (h : Woken d g) (op : DOp)
+    (h1 : op ≠ .remove g) (h2 : op ≠ .poll g) (h3 : op ≠ .pollHeld g) : Woken (dstep workers d op).2 g := by
+  obtain ⟨hh, hn⟩ := h
+  cases op with
+  | submit k v =>
+    refine ⟨by simpa [dstep] using hh, ?_⟩
+    by_cases hk : g = k
+    · subst hk; simp [dstep, Store.ensure, hn]
+    · cases hx : d.store.notify k <;> simp [dstep, Store.ensure, hx, setAt_other _ _ hk, hn]
+  | submitCancelled k => exact ⟨hh, hn⟩
+  | finish k v =>
+    refine ⟨by simpa [dstep] using hh, ?_⟩
+    by_cases hk : g = k
+    · subst hk; simp [dstep, Store.store, Store.notifyEnsured, hn]
+    · cases hx : d.store.notify k <;> simp [dstep, Store.store, Store.notifyEnsured, hx, setAt_other _ _ hk, hn]
+  | remove k =>
+    have hk : g ≠ k := fun e => h1 (by rw [e])
+    refine ⟨?_, by simp [dstep, Store.remove, setAt_other _ _ hk, hn]⟩
+    simp [dstep, setAt_other _ _ hk, hh]
+  | results k => exact ⟨by simpa [dstep] using hh, by simpa [dstep, Store.results] using hn⟩
+  | poll k =>
+    have hk : g ≠ k := fun e => h2 (by rw [e])
+    exact ⟨by simpa [dstep] using hh, by simp [dstep, Store.poll, setAt_other _ _ hk, hn]⟩
+  | qAdd vs => exact ⟨by simpa [dstep] using hh, by simpa [dstep] using hn⟩
+  | qPop => exact ⟨by simpa [dstep] using hh, by simpa [dstep] using hn⟩
+  | qLen => exact ⟨by simpa [dstep] using hh, by simpa [dstep] using hn⟩
+  | watch k =>
+    by_cases hk : g = k
+    · subst hk; exact ⟨by simp [dstep], by simp [dstep, Store.watch, hn]⟩
+    · refine ⟨by simp [dstep, setAt_other _ _ hk, hh], ?_⟩
+      cases hx : d.store.notify k <;> simp [dstep, Store.watch, hx, setAt_other _ _ hk, hn]
+  | pollHeld k =>
+    have hk : g ≠ k := fun e => h3 (by rw [e])
+    cases hx : d.held k <;> simp [Woken, dstep, pollHeldStep, hx, setAt_other _ _ hk, hh, hn]
+
+theorem woken_run (workers : Nat) {g : Nat} : ∀ (ops : List DOp) {d : DState}, Woken d g →
+    (∀ op ∈ ops, op ≠ .remove g ∧ op ≠ .poll g ∧ op ≠ .pollHeld g) → Woken (dend workers d ops) g := by
+  intro ops
+  induction ops with
+  | nil => intro d h _; exact h
+  | cons op ops ih =>
+    intro d h hall
+    have ho := hall op (List.mem_cons_self ..)
+    exact ih (woken_step workers h op ho.1 ho.2.1 ho.2.2) (fun o hm => hall o (List.mem_cons_of_mem _ hm))
+
+/-- fetching the channel and a result stored for the group: the kept channel is the live one, with a token -/
+theorem woken_after_watch_finish (workers : Nat) (d : DState) (g v : Nat) :
+    Woken (dend workers d [.watch g, .finish g v]) g := by
+  refine ⟨by simp [dend, dstep], ?_⟩
+  cases hx : d.store.notify g <;> simp [dend, dstep, Store.watch, Store.store, Store.notifyEnsured, hx]
+
+/-- `k` results stored for a group, whatever `k`: all of them are in the group's list, newest first -/
+theorem dend_finishes_data (workers : Nat) (g : Nat) : ∀ (vs : List Nat) (d : DState),
+    ((dend workers d (vs.map (.finish g))).store.data g).getD [] = vs.reverse ++ (d.store.data g).getD [] := by
+  intro vs
+  induction vs with
+  | nil => intro d; rfl
+  | cons v vs ih =>
+    intro d
+    simp only [List.map_cons, dend, ih, dstep, store_store_data, if_true, List.reverse_cons, List.append_assoc,
+      List.singleton_append]
 
 end AutoVerif.C14
